@@ -75,11 +75,21 @@ def loc_discipline(ctx, r):
         r.missing("create_source_location_tables / remove_labels_and_constants", TB)
     else:
         n += 1
+        from lib.inline import materialize
+
+        cs = materialize(cs, closures_only=False, pred=lambda inl: True)  # helpers such as push_unless_repeated(&mut table, index, value) read in place
         incs = [x for x in q.walk(cs["body"]) if x["k"] == "Binary" and x["op"] == "+=" and q.show(x["a"]) == "bytecode_index" and q.show(x["b"]) == "1"]
         inside = False
         for x in q.walk(cs["body"]):
             if x["k"] == "If" and x["c"]["k"] == "Let" and q.show_pat(x["c"]["pat"]).startswith("Line::Instr") and any(y is incs[0] for y in q.walk(x["t"])) if incs else False:
                 inside = True
+            # or: `let Line::Instr { .. } = line else { continue };` and the increment later in the same loop body
+            if x["k"] in ("For", "While", "Loop") and incs:
+                st_ = x["body"]["stmts"]
+                gate = [i for i, s_ in enumerate(st_) if s_["k"] == "Local" and s_.get("else") is not None and q.show_pat(s_["pat"]).startswith("Line::Instr") and any(y["k"] == "Continue" for y in q.walk(s_["else"]))]
+                inc_i = [i for i, s_ in enumerate(st_) if any(y is incs[0] for y in q.walk(s_)) and s_["k"] == "ExprStmt" and s_["e"] is incs[0]]
+                if gate and inc_i and gate[0] < inc_i[0]:
+                    inside = True
         r.ob(len(incs) == 1 and inside, "translate_bytecode.rs:create_source_location_tables:index-per-instruction", TB, cs["l"], "the table index must advance exactly once per Line::Instr (labels are not instructions)", sample="create_source_location_tables: bytecode_index += 1 per Line::Instr")
         ok2 = False
         for m in q.walk(rl["body"]):
@@ -93,7 +103,7 @@ def loc_discipline(ctx, r):
                 break
         r.ob(ok2, "assembly.rs:remove_labels_and_constants:offset-per-instruction", ASM, rl["l"], "label offsets must count Line::Instr only, like the location tables", sample="remove_labels_and_constants: offset += 1 per Line::Instr")
         for tbl, val in (("filename_table", "file_id"), ("lineno_table", "lineno"), ("function_name_table", "func_id")):
-            pushes = [x for x in q.walk(cs["body"]) if x["k"] == "MethodCall" and x["m"] == "push" and q.show(x["recv"]) == f"st.{tbl}"]
+            pushes = [x for x in q.walk(cs["body"]) if x["k"] == "MethodCall" and x["m"] == "push" and q.show(x["recv"]).replace("&mut ", "").strip("()").replace(" ", "") == f"st.{tbl}"]
             ok = len(pushes) == 1 and "bytecode_index" in q.show(pushes[0]["args"][0]) and val in q.show(pushes[0]["args"][0])
             r.ob(ok, f"translate_bytecode.rs:create_source_location_tables:{tbl}", TB, cs["l"], f"{tbl} must record (bytecode_index, {val}) when the value changes", sample=f"{tbl}: (bytecode_index, {val})")
             # each table is run-length encoded on its own: whether it records an entry may depend on nothing but its own last entry
@@ -170,11 +180,14 @@ def loc_discipline(ctx, r):
         for vname, arm, an in arms:
             if vname in ("Call", "CallFuncObj"):
                 n += 1
-                frames = [x for x in q.walk(arm["body"]) if x["k"] == "Struct" and q.last_seg(x["p"]) == "CallFrame"]
-                ok = bool(frames) and any(fl["name"] == "pc" and q.show(fl["e"]) == "self.pc" for fl in frames[0]["fields"])
+                from lib.inline import walk_inl
+
+                seq = list(walk_inl(arm["body"]))  # also inside a helper such as enter_function(target, nargs)
+                frames = [i for i, x in enumerate(seq) if x["k"] == "Struct" and q.last_seg(x["p"]) == "CallFrame"]
+                ok = bool(frames) and any(fl["name"] == "pc" and q.show(fl["e"]) == "self.pc" for fl in seq[frames[0]]["fields"])
                 # and the frame is pushed before pc is redirected
-                redirect = [x for x in q.walk(arm["body"]) if x["k"] == "Assign" and q.show(x["a"]) == "self.pc"]
-                ok = ok and bool(redirect) and frames[0]["l"] < redirect[0]["l"]
+                redirect = [i for i, x in enumerate(seq) if x["k"] == "Assign" and q.show(x["a"]) == "self.pc"]
+                ok = ok and bool(redirect) and frames[0] < redirect[0]
                 r.ob(ok, f"vm.rs:step:{vname}:return-address", VM, arm["l"], f"{vname} must push a frame holding the return address (self.pc after increment) before jumping", sample=f"{vname}: CallFrame{{pc: self.pc}} then jump")
     mk = q.find_fn(v, "make_stack_trace", impl_ty="VmGreenThread")
     if mk is not None:
